@@ -248,6 +248,11 @@ Definition router_loan (u : nat) (z pre : Z) (s : script) (st : state) : outcome
   do _ <- ensure (has (ab st) u) E_OTHER;
   flash_loan ROUTER z (router_body u z pre s) st.
 
+(* vault-router FlashLoan with `f` coins of the vault asset attached to the message: they reach the router before it runs *)
+Definition router_loan_f (u : nat) (z pre : Z) (s : script) (f : Z) (st : state) : outcome state :=
+  if f =? 0 then router_loan u z pre s st
+  else do ab' <- xfer (kind st) (ab st) u ROUTER f; router_loan u z pre s (set_ab st ab').
+
 (* ---- top-level operations ----------------------------------------------- *)
 Inductive op : Type :=
 | ODeposit (u : nat) (z sent : Z)
@@ -262,7 +267,8 @@ Inductive op : Type :=
 | ORouterMany (u : nat) (n : Z)                      (* router FlashLoan with n /= 1 assets *)
 | OCallbackExt (u : nat) (old z : Z)                 (* Callback(AfterTrade) sent by somebody else than the vault *)
 | ONextLoanExt (u : nat)                             (* router NextLoan sent by somebody else than a registered vault *)
-| OCompleteLoanExt (u : nat).                        (* router CompleteLoan sent by somebody else than the router *)
+| OCompleteLoanExt (u : nat)                         (* router CompleteLoan sent by somebody else than the router *)
+| ORouterLoanF (u : nat) (z pre : Z) (s : script) (f : Z).   (* router loan with f coins attached by the initiator *)
 
 Definition is_user (st : state) (u : nat) : bool := has (ab st) u && Nat.leb 5 u.
 
@@ -286,6 +292,7 @@ Definition step (st : state) (o : op) : outcome state :=
   | OCallbackExt _ _ _ => Err E_OTHER                             (* ExternalCallback *)
   | ONextLoanExt _ => Err E_UNAUTH
   | OCompleteLoanExt _ => Err E_UNAUTH
+  | ORouterLoanF u z pre s f => do _ <- ensure (is_user st u) E_OTHER; router_loan_f u z pre s f st
   end.
 
 (* a rejected operation leaves everything as it was (transaction atomicity of the platform) *)
@@ -305,7 +312,7 @@ with unnested (s : script) : bool :=
   match s with SNil => true | SCons a r => unnested_a a && unnested r end.
 
 Definition op_unnested (o : op) : bool :=
-  match o with ORun s => unnested s | ORouterLoan _ _ _ s => loan_free s | _ => true end.
+  match o with ORun s => unnested s | ORouterLoan _ _ _ s => loan_free s | ORouterLoanF _ _ _ s _ => loan_free s | _ => true end.
 Definition has_nested_loan (h : list op) : Prop := existsb (fun o => negb (op_unnested o)) h = true.
 
 (* ---- queries ------------------------------------------------------------ *)
